@@ -429,6 +429,7 @@ pub fn run_once(p: &BtParams, hist: &[usize]) -> StepReport {
     let mut counters: BTreeMap<String, u64> = BTreeMap::new();
     let mut c10: Option<String> = None;
     let mut c11: Option<String> = None;
+    let mut alias_seen = false;
     let mut last_audit: Option<Audit> = None;
     for (i, op) in ops.iter().enumerate() {
         let stamp = i as u32 + 1;
@@ -673,6 +674,9 @@ pub fn run_once(p: &BtParams, hist: &[usize]) -> StepReport {
                 c10 = Some(format!("after {}: {s}", op.show()));
             }
         }
+        if a.ownership.iter().any(|o| o.contains("interior separator")) {
+            alias_seen = true;
+        }
         if c11.is_none() {
             if let Some(o) = a.ownership.first() {
                 c11 = Some(format!("after {}: {o}", op.show()));
@@ -702,6 +706,17 @@ pub fn run_once(p: &BtParams, hist: &[usize]) -> StepReport {
     }
     drop(env);
     let _ = std::fs::remove_dir_all(&dir);
+    // C10: once an interior separator shares an overflow chain with its leaf cell (listed C11 finding), releasing
+    // that chain leaves the separator pointing at freed, later reused pages, and key comparisons through it fail.
+    // Such a history is not judged by C10 from the first aliasing on.
+    let alias_id = "KT-separator-aliases-overflow-chain";
+    if p.mode == "C10" && c10.is_some() && p.triggers.iter().any(|t| t == alias_id) && alias_seen {
+        rep.status = "tainted".into();
+        rep.findings = vec![alias_id.to_string()];
+        rep.detail = format!("{}\n{}", c10.clone().unwrap(), log.join("\n"));
+        rep.stop = true;
+        return rep;
+    }
     let deciding = if p.mode == "C11" { c11.clone() } else { c10.clone() };
     // C10 does not depend on who owns which page; C11's audit is meaningless on a tree that is functionally broken
     let other = if p.mode == "C11" { c10 } else { None };
